@@ -159,6 +159,13 @@ def harness_binary(cfgname):
 
 
 def prepare_harness_sources():
+    if REPO != '/repo':
+        # running from a snapshot against a copy of the repository: point the path dependencies at it
+        for f in (os.path.join(HARNESS, 'Cargo.toml'), os.path.join(ROOT, 'harness', 'macro_drive', 'src', 'main.rs')):
+            t = open(f).read()
+            t2 = t.replace('"/repo"', '"%s"' % REPO).replace('"/repo/', '"%s/' % REPO)
+            if t2 != t:
+                open(f, 'w').write(t2)
     rc, out = sh('python3 %s' % os.path.join(HERE, 'gen_harness.py'))
     if rc != 0:
         raise Internal('gen_harness failed: ' + out)
@@ -244,7 +251,7 @@ def run_streams(pid, streams, cfgname, binary, seed, scale, corpus=True):
     return results, stats
 
 
-def minimise(binary, world, cfg, ops, pred, budget=60):
+def minimise(binary, world, cfg, ops, pred, budget=25):
     """Delta debugging over the op list: keep a sub-list for which pred(trace) still holds."""
     ops = list(ops)
     n = 2
@@ -273,9 +280,14 @@ def minimise(binary, world, cfg, ops, pred, budget=60):
 
 
 def spec_failure_of(case, cfg, tags, tag):
-    r = evaluate([case], cfg, tag)[0]
-    if r['spec'] and (tags is None or r['spec']['prop'] in tags):
-        return r['spec']
+    work = os.path.join(CACHE, 'work', tag)
+    s = coqrun.run_cases([case], cfg, work + '-s', fn='spec_check', imports='Storage Query World Run Spec')[0]
+    if s == 'None':
+        return None
+    nums = [int(x) for x in re.findall(r'\d+', s)]
+    sp = dict(index=nums[0], prop=nums[1], reason=nums[2])
+    if tags is None or sp['prop'] in tags:
+        return sp
     return None
 
 
@@ -450,11 +462,12 @@ def check(pid, tier, seed):
     if not violations and (broken or diffs):
         # search: the specification oracle on more histories, all streams of this property, fresh seeds
         found = None
-        for cfgname in cfgnames:
+        search_cfgs = sorted(set(r['case']['config'] for r in diffs)) or cfgnames[:1]
+        for cfgname in search_cfgs:
             binary, _ = harness_binary(cfgname)
             if binary is None:
                 continue
-            for k in range(1, 4):
+            for k in range(1, 3):
                 res, _ = run_streams(pid, P['streams'], cfgname, binary, seed + 7919 * k, 2, corpus=False)
                 hit = [r for r in res if r['spec'] and r['spec']['prop'] in P['tags']]
                 if hit:
